@@ -144,6 +144,9 @@ def items(tier, seed):
 
 def cutsets(n, tier, rnd):
     cs = [()] + [(k,) for k in range(1, n)]
+    if tier != "thorough":
+        # a few double cuts (a 1-byte first piece, thirds) and delivery in 1-byte pieces
+        cs += [(1, 2), (1, n // 2), (1, n - 1), (n // 3, 2 * n // 3), tuple(range(1, n))]
     if tier == "thorough":
         dbl = list(itertools.combinations(range(1, n), 2))
         rnd.shuffle(dbl)
@@ -395,21 +398,30 @@ def run_net(item, pm, prm, rnd):
     batches followed by what is still buffered == the filtered input)"""
     import pyModeS.streamer.source as S
     item.encoded("pyModeS.streamer.source.NetSource.handle_messages")
+    # every sequence of message kinds of length <= 4 (quick) / 5 (thorough) over {ADS-B, Comm-B, short/other} and every
+    # way of splitting it into consecutive handle_messages() calls
+    import itertools as _it
     configs = []
-    for _ in range(6 if item.tier == "quick" else 30):
-        n = rnd.randint(3, 6)
-        kinds = [rnd.choice(["adsb", "adsb", "commb", "other", "short"]) for _ in range(n)]
-        k = rnd.randint(1, 3)
-        cutpos = sorted(rnd.sample(range(1, n), min(k - 1, n - 1)))
-        configs.append((kinds, cutpos))
+    maxlen = 4 if item.tier == "quick" else 5
+    for n in range(1, maxlen + 1):
+        for kinds in _it.product(["adsb", "commb", "short"], repeat=n):
+            if "adsb" not in kinds and "commb" not in kinds:
+                continue
+            for mask in range(1 << (n - 1)):
+                cutpos = [k + 1 for k in range(n - 1) if (mask >> k) & 1]
+                configs.append((["other" if (k == "short" and (i + n) % 2) else k for i, k in enumerate(kinds)], cutpos))
+    frame_pool = {}
     for ci, (kinds, cutpos) in enumerate(configs):
         msgs = []
         for mi, kind in enumerate(kinds):
-            df = {"adsb": rnd.choice([17, 18]), "commb": rnd.choice([20, 21]), "other": rnd.choice([16, 19, 24, 0, 4, 5, 11]),
+            df = {"adsb": rnd.choice([17, 18]), "commb": rnd.choice([20, 21]), "other": rnd.choice([16, 19, 24]),
                   "short": rnd.choice([0, 4, 5, 11, 17, 20])}[kind]
             nb = 56 if kind == "short" else 112
-            fr = H.Frame([("DF", 5, df), ("REST", nb - 5)], prefix="n%d_%d_" % (ci, mi), case="upper")
-            item.declare(fr)
+            key = (kind, df, mi)
+            fr = frame_pool.get(key)
+            if fr is None:
+                fr = frame_pool[key] = H.Frame([("DF", 5, df), ("REST", nb - 5)], prefix="n%s%d_%d_" % (kind[0], df, mi), case="upper")
+                item.declare(fr)
             msgs.append((kind, fr))
         calls = [msgs[a:b] for a, b in zip([0] + cutpos, cutpos + [len(msgs)])]
 
